@@ -72,8 +72,9 @@ def mutants(only=None, catalogue=None):
         scratch = tempfile.mkdtemp(prefix='acetime-mut-')
         try:
             shutil.copytree(os.path.join(B.REPO, 'src'), os.path.join(scratch, 'src'))
-            if os.path.isdir(os.path.join(B.REPO, 'tools')) and m['file'].startswith('tools/'):
-                shutil.copytree(os.path.join(B.REPO, 'tools'), os.path.join(scratch, 'tools'))
+            if m['file'].startswith('tools/') or 'C20' in m.get('breaks', []) + m.get('quiet', []):
+                shutil.copytree(os.path.join(B.REPO, 'tools'), os.path.join(scratch, 'tools'),
+                                ignore=shutil.ignore_patterns('__pycache__', 'archive', 'compare_*', 'validation'))
             _apply(scratch, m)
             out = os.path.join(scratch, 'out')
             os.makedirs(out)
